@@ -845,7 +845,15 @@ impl Indexable for ast::FieldLet {
             .expect("field let outside of record");
         let record = ctx.symbol_map.record(record_id);
 
-        let field_id = record.find_field(&ctx.symbol_map, &name)?;
+        let Some(field_id) = record.find_field(&ctx.symbol_map, &name) else {
+            // neither the record nor a class it inherits from has such a field; what is
+            // assigned is made of references all the same
+            ctx.error(reference_loc.range, format!("field not found: {name}"));
+            if let Some(value) = self.value() {
+                value.index(ctx);
+            }
+            return None;
+        };
         let field = ctx.symbol_map.record_field(field_id);
         let field_typ = field.typ.clone();
 
